@@ -1,6 +1,7 @@
 /- Lemmas about the window models (Model/Window.lean) against the terminal spec: row cache, the content loop and
    the blank loop shared by FullscreenWindow and CursorAwareWindow. -/
 import Curtsies.Model.Window
+import Curtsies.Model.Width
 import Curtsies.Proofs.Term
 import Curtsies.Proofs.Slice
 import Curtsies.Properties.C01
@@ -18,6 +19,11 @@ def isControl (ch : Char) : Bool :=
     in addition each is assumed to occupy one column — "single-column characters" in the properties' quantifiers;
     the spec advances one column per cell). -/
 def Printable (l : FmtStr) : Prop := ∀ ch ∈ text l, isControl ch = false
+
+/-- The rows the terminal spec's `put` is a terminal for: printable characters, each ONE column wide according to the
+    width environment `u` (the live `wcwidth`; `UEnv` of Model/Width.lean).  Wide and combining characters are
+    outside it (C10). -/
+def Glyphs (u : UEnv) (l : FmtStr) : Prop := Printable l ∧ ∀ ch ∈ text l, u.wcwidth ch = 1
 
 theorem Printable.escFree {l : FmtStr} (h : Printable l) : EscFree l := by
   intro ch hch
